@@ -169,14 +169,19 @@ pub fn resolve(w: &S, r: &S, v: &V, cx: &Ctx) -> Result<Vec<V>, NoResult> {
                     S::String => crate::val::uuid_canonical_text(u).into_bytes(),
                     _ => u.to_vec(),
                 },
-                (V::BigDec(..), _) => return no("big-decimal evolution is outside the model"),
+                (V::BigDec(..), _) => {
+                    // big-decimal read as big-decimal is the identity; every other evolution of it would
+                    // need its payload format, which is not part of the specification: no verdict
+                    if matches!(rlog, Some(Lt::BigDecimal)) {
+                        return one(v.clone());
+                    }
+                    return no("OUTSIDE-MODEL: big-decimal read as another type");
+                }
                 _ => return no("bytes/string value expected"),
             };
             match (&rlog, rb) {
                 (Some(Lt::Decimal { .. }), _) => {
-                    if raw.is_empty() {
-                        return no("empty decimal");
-                    }
+                    // zero bytes denote zero (as when such a datum is decoded without a reader schema)
                     one(V::Decimal(BigInt::from_signed_bytes_be(&raw)))
                 }
                 (Some(Lt::Uuid), S::String) => match std::str::from_utf8(&raw).ok().and_then(crate::refbin::parse_uuid_text) {
@@ -187,7 +192,7 @@ pub fn resolve(w: &S, r: &S, v: &V, cx: &Ctx) -> Result<Vec<V>, NoResult> {
                     Ok(u) => one(V::Uuid(u)),
                     Err(_) => no("not 16 bytes"),
                 },
-                (Some(Lt::BigDecimal), _) => no("big-decimal evolution is outside the model"),
+                (Some(Lt::BigDecimal), _) => no("OUTSIDE-MODEL: another type read as big-decimal"),
                 (_, S::String) => match String::from_utf8(raw) {
                     Ok(s) => one(V::Str(s)),
                     Err(_) => no("bytes are not valid UTF-8 for a string reader"),
